@@ -1,5 +1,5 @@
 /-
-Machine-checked counter-examples of the open findings of C20 (non-gating: when a finding is repaired in
+Machine-checked counter-example of the open (pinned) finding of C20 (non-gating: when a finding is repaired in
 /repo and the model follows, the corresponding refutation stops compiling).
 -/
 import AsyncFix.Props.C20
@@ -9,7 +9,6 @@ open AsyncFix.Tester AsyncFix.Props.C20
 
 def st0 : TState := { registered := ["c1"] }
 def o0 : OrderView := { clordId := "c1", qty := ⟨80, true⟩, price := ⟨800, true⟩, status := "A" }
-def aPendingNew : Args := { clordId := "c1", execType := "A", ordStatus := "A" }
 def aNew : Args := { clordId := "c1", execType := "0", ordStatus := "0", cumQty := some ⟨0, true⟩, leavesQty := some ⟨80, true⟩ }
 def aForeign : Args := { aNew with clordId := "zzz" }
 
@@ -29,20 +28,6 @@ theorem eq_of_raisedFix {r : Except PExc (OrderView × Bool)} (h : raisedFix r =
   · rfl
   · cases h
 
-def r1 := fabricate none st0 o0 aPendingNew
-def r2 := fabricate none r1.1 o0 aNew
-
-/-- D27 / C20-orderid-unstable-before-first-processing: the two reports carry OrderID 1 and 2 -/
-theorem order_id_witness : (msgOf r1).str? 37 = some "1" ∧ (msgOf r2).str? 37 = some "2" := by decide +kernel
-
-theorem order_id_stable_full_refuted : ¬ order_id_stable_full := by
-  intro h
-  have e1 : fabricate none st0 o0 aPendingNew = (r1.1, .ok (msgOf r1)) := eq_of_isOk r1 (by decide +kernel)
-  have e2 : fabricate none r1.1 o0 aNew = (r2.1, .ok (msgOf r2)) := eq_of_isOk r2 (by decide +kernel)
-  have := h none st0 r1.1 r2.1 o0 aPendingNew aNew (msgOf r1) (msgOf r2) e1 e2
-  rw [order_id_witness.1, order_id_witness.2] at this
-  exact absurd this (by decide)
-
 def r3 := fabricate none st0 o0 aForeign
 
 /-- C20-foreign-clordid-accepted: accepted by the helper, `process_execution_report` raises FIXError -/
@@ -56,37 +41,5 @@ theorem fabricated_processable_full_refuted : ¬ fabricated_processable_full := 
   obtain ⟨o', b, hp⟩ := h none st0 r3.1 o0 aForeign (msgOf r3) (by decide +kernel) e
   rw [foreign_clordid_witness.2] at hp
   cases hp
-
-/-! ### C20-reply-nonascii-utf8 -/
-open AsyncFix.Session in
-def latinEx : Msg := Msg.mk' "D" [(58, "é")]
-
-open AsyncFix.Session in
-/-- after a clean Logon, `reply` of a message with the single-byte text "é" raises (its own decode of the
-UTF-8 bytes fails the checksum) … -/
-theorem reply_nonascii_witness :
-    (tRun (fun _ => true) (fun _ => true) 1 ⟨ciEx, mkAcceptor ciEx, []⟩
-      [(envEx 1, .iSend logonEx), (envEx 2, .aSend latinEx)]).out = .replyRaised := by decide +kernel
-
-open AsyncFix.Session in
-/-- … while the real acceptor endpoint delivers it (the link is quiet and the initiator counted it) -/
-theorem link_nonascii_witness :
-    (lRun (fun _ => true) (fun _ => true) ciEx (realAcceptor ciEx)
-      [(envEx 1, .iSend logonEx), (envEx 2, .aSend latinEx)]).quiet = true ∧
-    (lRun (fun _ => true) (fun _ => true) ciEx (realAcceptor ciEx)
-      [(envEx 1, .iSend logonEx), (envEx 2, .aSend latinEx)]).ci.sess.nextIn = 7 := by decide +kernel
-
-open AsyncFix.Session in
-theorem tester_lockstep_full_refuted : ¬ tester_lockstep_full := by
-  intro h
-  have := h (fun _ => true) (fun _ => true) 0 ciEx start_ciEx (envEx 1) logonEx (by decide) logonEx_ok
-    [(envEx 2, .aSend latinEx)] (by
-      intro x hx
-      simp only [List.mem_cons, List.mem_nil_iff, or_false] at hx
-      subst hx
-      exact ⟨by decide, ⟨by decide, by decide, by decide⟩, rfl, Or.inl ⟨by decide, by decide, by decide, by decide, by decide, by decide⟩⟩)
-  have hd := this.done
-  rw [reply_nonascii_witness] at hd
-  cases hd
 
 end AsyncFix.Findings.C20
